@@ -80,6 +80,15 @@ Proof.
     rewrite (Parent_self _ _ _ _ H) in EC. congruence.
 Qed.
 
+Lemma NoDup4 : forall (a b c d : Z), a <> b -> a <> c -> a <> d -> b <> c -> b <> d -> c <> d -> NoDup [a; b; c; d].
+Proof.
+  intros a b c d Hab Hac Had Hbc Hbd Hcd.
+  constructor; [cbn [In]; intros [E|[E|[E|[]]]]; congruence|].
+  constructor; [cbn [In]; intros [E|[E|[]]]; congruence|].
+  constructor; [cbn [In]; intros [E|[]]; congruence|].
+  constructor; [cbn [In]; intros []|constructor].
+Qed.
+
 (** ** EdgeNeighbors *)
 (** H-WRAP, inside part (float64 arithmetic only; every operation on the path is exact for these
     inputs): for leaf coordinates inside the face the wrap function is cellIDFromFaceIJ *)
@@ -168,7 +177,7 @@ Proof.
   assert (D13 := at_pos_disjoint _ _ _ _ _ _ _ _ P1 P3 ltac:(intros X; injection X; lia)).
   assert (D23 := at_pos_disjoint _ _ _ _ _ _ _ _ P2 P3 ltac:(intros X; injection X; lia)).
   split.
-  - repeat constructor; cbn [In]; intuition congruence.
+  - apply NoDup4; [exact (proj1 D01)|exact (proj1 D02)|exact (proj1 D03)|exact (proj1 D12)|exact (proj1 D13)|exact (proj1 D23)].
   - intros n Hn. cbn [In] in Hn.
     assert (Q : exists a' b', at_pos n f l a' b' /\ (a, b) <> (a', b')).
     { destruct Hn as [<- | [<- | [<- | [<- | []]]]]; eexists _, _; (split; [eassumption|intros X; injection X; lia]). }
@@ -236,4 +245,81 @@ Proof.
   - rewrite Z2Nat.id by lia. rewrite Esz. ring.
   - lia.
   - lia.
+Qed.
+
+(** ** VertexNeighbors, same-face part (hand model Model/CellIDNbr.v) *)
+Theorem VertexNeighbors_same_face : forall c f l a b level, at_pos c f l a b -> 0 <= level < l ->
+  exists i j o, s2_CellID_faceIJOrientation c = (f, i, j, o) /\
+  let A := i / 2 ^ (30 - level) in let B := j / 2 ^ (30 - level) in
+  let di := if negb (Z.land i (2 ^ (30 - (level + 1))) =? 0) then 1 else -1 in
+  let dj := if negb (Z.land j (2 ^ (30 - (level + 1))) =? 0) then 1 else -1 in
+  0 <= A + di < 2 ^ level -> 0 <= B + dj < 2 ^ level ->
+  exists n0 n1 n2 n3, VertexNeighbors c level = [n0; n1; n2; n3] /\
+    n0 = s2_CellID_Parent c level /\ s2_CellID_Contains n0 c = true /\
+    at_pos n0 f level A B /\ at_pos n1 f level (A + di) B /\ at_pos n2 f level A (B + dj) /\
+    at_pos n3 f level (A + di) (B + dj) /\ NoDup [n0; n1; n2; n3].
+Proof.
+  intros c f l a b level (k & i & j & o & H & D & Ei & Ej & Ha & Hb) Hlv.
+  pose proof H as (Hf & Hl & Hk & _).
+  destruct (cell_state (Z.to_nat l) (index f l k)) as [[ci cj] co] eqn:ES.
+  destruct (faceIJ_cell _ _ _ _ H ci cj co ES) as (i2 & j2 & D2 & _ & _ & Ri & Rj).
+  rewrite D in D2. injection D2 as <- <- _.
+  exists i, j, o. split; [exact D|]. cbv zeta. intros HA HB.
+  set (A := i / 2 ^ (30 - level)) in *. set (B := j / 2 ^ (30 - level)) in *.
+  set (di := if negb (Z.land i (2 ^ (30 - (level + 1))) =? 0) then 1 else -1) in *.
+  set (dj := if negb (Z.land j (2 ^ (30 - (level + 1))) =? 0) then 1 else -1) in *.
+  assert (Hlv' : 0 <= level <= 30) by lia.
+  pose proof (pow2_pos (30 - level) ltac:(lia)) as HP. pose proof (pow2_le (30 - level) 30 ltac:(lia)) as HPle.
+  assert (Hsz : 2 ^ (30 - level) = 2 * 2 ^ (30 - (level + 1))).
+  { replace (30 - level) with (30 - (level + 1) + 1) by lia. rewrite Z.pow_add_r by lia. change (2 ^ 1) with 2. ring. }
+  (* the ancestor and the leaf inside c *)
+  destruct (ancestor_prefix _ _ _ _ level H ltac:(lia)) as (i1 & j1 & o1 & i' & j' & o' & D1 & D' & Ei' & Ej').
+  rewrite D in D1. injection D1 as <- <- _.
+  pose proof (Parent_rep _ _ _ _ level H ltac:(lia)) as HPar.
+  assert (RA : 0 <= A < 2 ^ level /\ 0 <= B < 2 ^ level).
+  { assert (E30 : 2 ^ 30 = 2 ^ level * 2 ^ (30 - level)) by (rewrite <- Z.pow_add_r by lia; f_equal; lia).
+    unfold A, B. split; (split; [apply Z.div_pos; lia|apply Z.div_lt_upper_bound; [lia|rewrite Z.mul_comm, <- E30; lia]]). }
+  assert (P0 : at_pos (s2_CellID_Parent c level) f level A B).
+  { exists (k / 4 ^ (l - level)), i', j', o'. split; [exact HPar|]. split; [exact D'|]. split; [exact Ei'|]. split; [exact Ej'|]. exact RA. }
+  (* the three other entries *)
+  assert (Hdi : di = 1 \/ di = -1) by (unfold di; destruct (Z.land i (2 ^ (30 - (level + 1))) =? 0); cbn [negb]; auto).
+  assert (Hdj : dj = 1 \/ dj = -1) by (unfold dj; destruct (Z.land j (2 ^ (30 - (level + 1))) =? 0); cbn [negb]; auto).
+  destruct (shifted_pos i level A di Hlv' eq_refl Ri HA) as (RI & EI).
+  destruct (shifted_pos j level B dj Hlv' eq_refl Rj HB) as (RJ & EJ).
+  pose proof (parent_of_leaf_at f (i + di * 2 ^ (30 - level)) j level Hf RI Rj Hlv') as P1. rewrite EI in P1. fold B in P1.
+  pose proof (parent_of_leaf_at f i (j + dj * 2 ^ (30 - level)) level Hf Ri RJ Hlv') as P2. rewrite EJ in P2. fold A in P2.
+  pose proof (parent_of_leaf_at f (i + di * 2 ^ (30 - level)) (j + dj * 2 ^ (30 - level)) level Hf RI RJ Hlv') as P3. rewrite EI, EJ in P3.
+  (* the model's computation *)
+  unfold VertexNeighbors. rewrite D.
+  rewrite (wrap_i64_small (level + 1)) by (change (2 ^ 63) with 9223372036854775808; lia).
+  rewrite (sizeIJ_eq (level + 1)) by lia.
+  rewrite go_shl_mul by lia. change (2 ^ 1) with 2. rewrite (Z.mul_comm _ 2), <- Hsz.
+  change (2 ^ 30) with 1073741824 in *. unfold MaxSize.
+  rewrite (wrap_i64_small (2 ^ (30 - level))) by (change (2 ^ 63) with 9223372036854775808; lia).
+  rewrite (wrap_i64_small (- 2 ^ (30 - level))) by (change (2 ^ 63) with 9223372036854775808; lia).
+  rewrite !(wrap_i64_small (i + _)), !(wrap_i64_small (i - _)), !(wrap_i64_small (j + _)), !(wrap_i64_small (j - _))
+    by (change (2 ^ 63) with 9223372036854775808; lia).
+  assert (Ii : (if negb (Z.land i (2 ^ (30 - (level + 1))) =? 0)
+               then (2 ^ (30 - level), i + 2 ^ (30 - level) <? 1073741824)
+               else (- 2 ^ (30 - level), 0 <=? i - 2 ^ (30 - level))) = (di * 2 ^ (30 - level), true)).
+  { unfold di in *. destruct (negb (Z.land i (2 ^ (30 - (level + 1))) =? 0)); f_equal; try ring.
+    - apply Z.ltb_lt. lia. - apply Z.leb_le. lia. }
+  assert (Ij : (if negb (Z.land j (2 ^ (30 - (level + 1))) =? 0)
+               then (2 ^ (30 - level), j + 2 ^ (30 - level) <? 1073741824)
+               else (- 2 ^ (30 - level), 0 <=? j - 2 ^ (30 - level))) = (dj * 2 ^ (30 - level), true)).
+  { unfold dj in *. destruct (negb (Z.land j (2 ^ (30 - (level + 1))) =? 0)); f_equal; try ring.
+    - apply Z.ltb_lt. lia. - apply Z.leb_le. lia. }
+  rewrite Ii, Ij. cbn [orb andb app]. unfold s2_cellIDFromFaceIJSame.
+  rewrite !(wrap_i64_small (i + _)), !(wrap_i64_small (j + _)) by (change (2 ^ 63) with 9223372036854775808; lia).
+  eexists _, _, _, _. split; [reflexivity|]. split; [reflexivity|].
+  split; [exact (Parent_contains _ _ _ _ _ H (conj (proj1 Hlv) (Z.lt_le_incl _ _ (proj2 Hlv))))|].
+  split; [exact P0|]. split; [exact P1|]. split; [exact P2|]. split; [exact P3|].
+  clear - P0 P1 P2 P3 Hdi Hdj.
+  assert (D01 := at_pos_disjoint _ _ _ _ _ _ _ _ P0 P1 ltac:(intros X; injection X; lia)).
+  assert (D02 := at_pos_disjoint _ _ _ _ _ _ _ _ P0 P2 ltac:(intros X; injection X; lia)).
+  assert (D03 := at_pos_disjoint _ _ _ _ _ _ _ _ P0 P3 ltac:(intros X; injection X; lia)).
+  assert (D12 := at_pos_disjoint _ _ _ _ _ _ _ _ P1 P2 ltac:(intros X; injection X; lia)).
+  assert (D13 := at_pos_disjoint _ _ _ _ _ _ _ _ P1 P3 ltac:(intros X; injection X; lia)).
+  assert (D23 := at_pos_disjoint _ _ _ _ _ _ _ _ P2 P3 ltac:(intros X; injection X; lia)).
+  apply NoDup4; [exact (proj1 D01)|exact (proj1 D02)|exact (proj1 D03)|exact (proj1 D12)|exact (proj1 D13)|exact (proj1 D23)].
 Qed.
